@@ -621,6 +621,7 @@ func (e *Exec) invoke(st *State, instr ssa.Instruction, cc *ssa.CallCommon, recv
 		ret(e.freshVal("errstr", resType))
 		return
 	case m == "Context":
+		st.counts["carrier.Context"]++
 		// carrier stream context: a stable value per stream
 		ret(Val{T: []string{app(e.fun("stream_ctx_tag", []string{SInt}, SInt), recv.T[1]), app(e.fun("stream_ctx", []string{SInt}, SInt), recv.T[1])}})
 		return
